@@ -31,8 +31,9 @@ def pool_np():
     return [np.float64(1.0), np.int64(1), np.float64('nan'), np.array([1.0, 2.0]), np.array([1.0, nan]), np.array([1, 2]), np.array([[1.0, 2.0]]), np.array([]),
             np.array([1.0]), np.array([1, 'a', None], dtype = object), np.array([[1.0]]),
             pd.Series([1.0, nan], [0, 1]), pd.Series([1.0, nan], [0, 2]), pd.Series([1.0, 2.0], [0, 1]), pd.DataFrame(dict(a = [1.0, nan])), pd.DataFrame(dict(b = [1.0, nan])),
-            pd.Series([], dtype = float), pd.Timestamp('2020-01-01'), pd.Series([[1.0, nan], 'a', (nan,)], dtype = object), pd.DataFrame(dict(a = [[nan], 2.0]), dtype = object)]
-NPNAMES = ['f64-1', 'i64-1', 'f64-nan', 'arr-12f', 'arr-1nan', 'arr-12i', 'arr-2d', 'arr-empty', 'arr-1', 'arr-obj', 'arr-1x1', 'ser-1nan', 'ser-1nan-otheridx', 'ser-12', 'df-a', 'df-b', 'ser-empty', 'ts', 'ser-obj-cells', 'df-obj-cells']
+            pd.Series([], dtype = float), pd.Timestamp('2020-01-01'), pd.Series([[1.0, nan], 'a', (nan,)], dtype = object), pd.DataFrame(dict(a = [[nan], 2.0]), dtype = object),
+            pd.Series([1, None, 'a'], dtype = object), pd.Series([1, nan, 'a'], dtype = object)]
+NPNAMES = ['f64-1', 'i64-1', 'f64-nan', 'arr-12f', 'arr-1nan', 'arr-12i', 'arr-2d', 'arr-empty', 'arr-1', 'arr-obj', 'arr-1x1', 'ser-1nan', 'ser-1nan-otheridx', 'ser-12', 'df-a', 'df-b', 'ser-empty', 'ts', 'ser-obj-cells', 'df-obj-cells', 'ser-obj-none', 'ser-obj-nan']
 
 SC = ['none', 'bool', 'int', 'float', 'str', 'dt']
 def gen(c, name, depth, maxlen, floats, kinds = SC, with_np = True):
@@ -143,6 +144,25 @@ def h_dict_order(cls, nested):
         c.check('equals-its-own-copy-with-another-key-order', (True if E.eq(x, z) else False) and (True if E.eq(z, x) else False))
     return h
 
+def _cell_eq(a, b):
+    """reference for one cell of a pandas object: NaN matches NaN, None only None, containers only the same container type cell by cell"""
+    if isinstance(a, (list, tuple)) or isinstance(b, (list, tuple)):
+        return type(a) is type(b) and len(a) == len(b) and all(_cell_eq(x, y) for x, y in zip(a, b))
+    if a is None or b is None: return a is None and b is None
+    if isinstance(a, float) and a != a: return isinstance(b, float) and b != b
+    if isinstance(b, float) and b != b: return False
+    return bool(a == b)
+def h_pandas_cells(c):
+    """pandas objects are equal only if index, columns and all cells match (the pandas members of the pool, pairwise)"""
+    import pandas as pd
+    E = _E(); pool = pool_np(); idx = [i for i, v in enumerate(pool) if isinstance(v, (pd.Series, pd.DataFrame))]
+    x = pool[idx[c.choice('i', len(idx))]]; y = pool[idx[c.choice('j', len(idx))]]
+    want = type(x) is type(y) and x.shape == y.shape and list(x.index) == list(y.index) and (not isinstance(x, pd.DataFrame) or list(x.columns) == list(y.columns)) \
+           and all(_cell_eq(p, q) for p, q in zip(x.values.ravel().tolist(), y.values.ravel().tolist()))
+    r = True if E.eq(x, y) else False
+    c.check('pandas-objects-equal-only-if-index-columns-and-all-cells-match', r == want)
+    return None
+
 KEYSETS = [('a',), ('b',), ('a', 'b'), ('b', 'a'), ('b', 'c')]
 def h_dict_keys(cls):
     """two dicts over independently chosen key sets (same or different keys, same or different insertion order), values None / int / str: eq agrees with ==, both ways"""
@@ -161,6 +181,7 @@ def h_dict_keys(cls):
 def obligations(tier):
     q = tier == 'quick'
     obs = []
+    obs.append(Ob('pandas-cells', h_pandas_cells, setup = setup, budget_s = 300, desc = 'eq on every pair of pandas members of the pool == index, columns and cells match (None is not NaN)'))
     for cls in (dict, MyDict):
         for i, ks in enumerate(KEYSETS):
             obs.append(Ob('dict-key-sets.%s.%s' % (cls.__name__.lower(), ''.join(ks)), h_dict_keys(cls), setup = setup, pins = {'x.keys': i}, budget_s = 300,
